@@ -66,6 +66,20 @@ Theorem C14_reset_policy : forall fuel s s' o,
 Proof. exact reset_policy_step. Qed.
 Print Assumptions C14_reset_policy.
 
+(* the attempt limit has priority over the reset policy: the out-of-range answer is itself a failed attempt, so with
+   count >= limit the start Deferred fails with OffsetOutOfRange and nothing is re-scheduled (no OffsetRequest will be
+   sent); below the limit the policy is applied exactly as configured.  With limit 1 the policy is therefore never
+   applied, with limit 2 only before the first successful fetch (the zero-delay refetch counts as an attempt): see the
+   Examples at the end. *)
+Theorem C14_limit_has_priority_over_policy : forall fuel s s' o t,
+  s_req s = Some (R_FETCH, false) -> reset_off (s_cf s) = Some t -> s_startd s = Some false -> s_inapi s = 0 ->
+  running s = true -> s_rcall s = None -> step fuel s (EReqFail FK_OOR) = (s', o) ->
+  if exhausted s
+  then o = [OStartD false FK_OOR; OEnd (s_lp s) (s_lc s)] /\ s_startd s' = Some true /\ s_rcall s' = None /\ s_req s' = None
+  else o = [OSched T_RETRY (s_ridx s); OEnd (s_lp s) (s_lc s)] /\ s_foff s' = t /\ s_rcall s' = Some 0 /\ s_startd s' = Some false.
+Proof. exact limit_priority_over_policy. Qed.
+Print Assumptions C14_limit_has_priority_over_policy.
+
 (* ... and when the retry timer then fires, the request is the OffsetRequest for earliest / latest (or the fetch) *)
 Theorem C14_retry_fires : forall fuel s s' o,
   s_rcall s = Some 0 -> s_req s = None -> step fuel s EFireRetry = (s', o) ->
@@ -173,5 +187,23 @@ Example ex_limit_three_failures :
   = [22; 5; 4096; 34; 0; 37; -1000; -1000;  25; 1; 0; 37; -1000; -1000;  22; 5; 4096; 37; -1000; -1000;
      25; 1; 1; 37; -1000; -1000;  22; 5; 4096; 37; -1000; -1000;  30; 0; 1; 37; -1000; -1000].
 Proof. vm_compute. reflexivity. Qed.
+(* limit 1, policy earliest: the first out-of-range answer ends the consumer; limit 2: applied before, not after, a success *)
+Example ex_limit1_policy_never_applied :
+  flat_map (enc_out 7) (snd (run_events 60 (init ex_cfg 1 4096) [EStart 5; EReqFail FK_OOR]))
+  = [22; 5; 4096; 34; 0; 37; -1000; -1000;  30; 0; 2; 37; -1000; -1000].
+Proof. vm_compute. reflexivity. Qed.
+Example ex_limit2_policy_before_success :
+  flat_map (enc_out 7) (snd (run_events 60 (init ex_cfg 2 4096) [EStart 5; EReqFail FK_OOR; EFireRetry]))
+  = [22; 5; 4096; 34; 0; 37; -1000; -1000;  25; 1; 0; 37; -1000; -1000;  20; -2; 37; -1000; -1000].
+Proof. vm_compute. reflexivity. Qed.
+Example ex_limit2_policy_not_after_success :
+  flat_map (enc_out 7) (snd (run_events 60 (init ex_cfg 2 4096) [EStart 5; EPlan 0 0; EFetchOk [5] false; EFireRetry; EReqFail FK_OOR]))
+  = [22; 5; 4096; 34; 0; 37; -1000; -1000;  37; -1000; -1000;  24; 1; 5; 25; 1; -1; 37; 5; -1000;  22; 6; 4096; 37; 5; -1000;
+     30; 0; 2; 37; 5; -1000].
+Proof. vm_compute. reflexivity. Qed.
+Example ex_growth_at_max : let s := fst (run_events 60 (init (mkCfg false 0 false 0 (Some 4096) (-1)) 0 4096) [EStart 0]) in
+  grow_buffer (s_buf s) (c_maxbuf (s_cf s)) = None /\
+  flat_map (enc_out 7) (snd (step 60 s (EFetchOk [] true))) = [30; 0; 9; 37; -1000; -1000].
+Proof. vm_compute. split; reflexivity. Qed.
 Example ex_delay : (delay_seq 1 (6#5) (3#2) 1 == 6#5)%Q /\ (delay_seq 1 (6#5) (3#2) 3 == 3#2)%Q.
 Proof. split; vm_compute; reflexivity. Qed.
